@@ -228,6 +228,9 @@ func (fr *Frame) enterLoop(li *loopInfo, preds []*ssa.BasicBlock) {
 		ex.addFact(ex.typeFacts(c, phi.Type()))
 		fr.vals[phi] = g
 		cur[phi] = g
+		if inc := incoming[phi]; inc != nil && inc.T != nil && inc.T.S == s && inc.Len == nil {
+			ex.firstIter = append(ex.firstIter, Eq(c, inc.T))
+		}
 	}
 	// assume invariants
 	env := fr.loopEnv(li, cur, nil)
